@@ -334,6 +334,21 @@ def fan_out(chk, jobs, owner, kind, causes, procs=16):
             chk.sample(s)
 
 
+def replay_cross(chk, r: dict):
+    """Re-run one stored behaviour (kind deribit_cross_path / deribit_cross_bars) against the working tree; no chk.finish()."""
+    from .props.c15 import refrac
+    states = list(refrac(r["states"]))
+    o = replay_direct(states, r["owner"]) if r["kind"] == "deribit_cross_path" else replay_bars(states, r["grid"])
+    for k, v in o.counts.items():
+        chk.count(k, v)
+    for sig, what, rep in o.viols:
+        chk.violation(sig, what, rep)
+    chk.evaluations += o.evals
+    chk.traces += o.traces
+    for s_ in o.samples[:1]:
+        chk.sample(s_)
+
+
 def run_cross(chk, owner):
     """Deribit leg of C01 / C03 / C04 (does not call chk.finish)."""
     from .props.c15 import check_devs
